@@ -14,7 +14,9 @@ import (
 	"github.com/form3tech-oss/f1/v2/internal/trigger/ramp"
 	"github.com/form3tech-oss/f1/v2/internal/trigger/staged"
 	"github.com/form3tech-oss/f1/v2/internal/verifharness/hlib"
+	"github.com/form3tech-oss/f1/v2/internal/verifshim/vrt"
 	"github.com/form3tech-oss/f1/v2/internal/verifshim/vtime"
+	f1testing "github.com/form3tech-oss/f1/v2/pkg/f1/testing"
 )
 
 type stage struct {
@@ -24,7 +26,7 @@ type stage struct {
 
 var (
 	durAlpha    = []time.Duration{0, 700 * time.Millisecond, time.Second, 3 * time.Second}
-	targetAlpha = []int{0, 1, 2, 7, 100}
+	targetAlpha = []int{0, 1, 2, 7, 100, -10} // a negative target is a target like any other: the shape passes through it (a negative request asks for nothing)
 	t0          = time.Date(2024, 3, 1, 12, 0, 0, 750_000_123, time.UTC) // not aligned to a second (or a millisecond)
 )
 
@@ -443,11 +445,87 @@ func largeSuite() hlib.Suite {
 	}}
 }
 
+// cliSuite: the profiles as a run applies them, through the outermost entry point (`f1 run ramp|staged s ...`
+// with the common flags present, as the CLI registers them): iterations started per tick against the exact
+// interpolation of the *configured* shape - in particular when --max-duration is shorter or longer than the
+// ramp / the stages, and when --ramp-duration is left to default to --max-duration.
+func cliSuite() hlib.Suite {
+	type cse struct {
+		args  []string
+		a, b  int // rates per tick at the two ends of the segment in force during the run
+		seg   time.Duration
+		run   time.Duration // how long triggering goes on (min of max-duration-10ms and the profile's length)
+		after bool          // the profile ends before max-duration: the run ends with it
+	}
+	tick := 100 * time.Millisecond
+	common := []string{"--distribution", "none", "--concurrency", "400", "--jitter", "0"}
+	cases := []cse{
+		{args: []string{"ramp", "s", "--start-rate", "0/100ms", "--end-rate", "100/100ms", "--ramp-duration", "10s", "--max-duration", "2s"}, a: 0, b: 100, seg: 10 * time.Second, run: 2 * time.Second},
+		{args: []string{"ramp", "s", "--start-rate", "100/100ms", "--end-rate", "0/100ms", "--ramp-duration", "10s", "--max-duration", "2s"}, a: 100, b: 0, seg: 10 * time.Second, run: 2 * time.Second},
+		{args: []string{"ramp", "s", "--start-rate", "10/100ms", "--end-rate", "50/100ms", "--ramp-duration", "0s", "--max-duration", "2s"}, a: 10, b: 50, seg: 2 * time.Second, run: 2 * time.Second},
+		{args: []string{"ramp", "s", "--start-rate", "10/100ms", "--end-rate", "30/100ms", "--ramp-duration", "1s", "--max-duration", "3s"}, a: 10, b: 30, seg: time.Second, run: 3 * time.Second, after: true},
+		{args: []string{"ramp", "s", "--start-rate", "3/100ms", "--end-rate", "40/100ms", "--ramp-duration", "2500ms", "--max-duration", "6s"}, a: 3, b: 40, seg: 2500 * time.Millisecond, run: 6 * time.Second, after: true},
+		{args: []string{"staged", "s", "--stages", "0s:0,10s:100", "--iterationFrequency", "100ms", "--max-duration", "2s"}, a: 0, b: 100, seg: 10 * time.Second, run: 2 * time.Second},
+		{args: []string{"staged", "s", "--stages", "0s:60,10s:10", "--iterationFrequency", "100ms", "--max-duration", "1500ms"}, a: 60, b: 10, seg: 10 * time.Second, run: 1500 * time.Millisecond},
+		{args: []string{"staged", "s", "--stages", "0s:5,1s:25", "--iterationFrequency", "100ms", "--max-duration", "6s"}, a: 5, b: 25, seg: time.Second, run: 6 * time.Second, after: true},
+	}
+	return hlib.Suite{Name: "cli/ramp+staged/iterations-per-tick-vs-configured-shape/max-duration-shorter-and-longer", Run: func(r *hlib.Rec) {
+		for _, c := range cases {
+			if !r.Mine() {
+				continue
+			}
+			r.Eval()
+			args := append(append([]string{}, c.args...), common...)
+			input := "f1 run " + strings.Join(args, " ")
+			r.SampleCase(input)
+			var setupAt int64 = -1
+			var starts []int64
+			res := hlib.RunCLIScenario(args, 2*time.Hour, func(*f1testing.T) f1testing.RunFn {
+				setupAt = vrt.Clock()
+				return func(*f1testing.T) { starts = append(starts, vrt.Clock()) }
+			})
+			if res.Status != vrt.StOK || res.Err != nil {
+				r.Fail("C10/cli-run-broken", "run", fmt.Sprintf("%s %s%s err=%v", res.Status, res.Crash, res.Detail, res.Err), input)
+				continue
+			}
+			per := map[int64]int{}
+			var last int64
+			for _, t := range starts {
+				k := (t - setupAt) / int64(tick)
+				per[k]++
+				if k > last {
+					last = k
+				}
+			}
+			// ticks k = 0, 1, ... while k*tick lies inside the triggering window (max-duration less the 10 ms guard); past
+			// the end of the profile nothing is requested
+			end := c.run - 10*time.Millisecond
+			for k := int64(0); time.Duration(k)*tick <= end; k++ {
+				off := time.Duration(k) * tick
+				switch {
+				case off < c.seg || (off == c.seg && !c.after):
+					rv := refVal{a: c.a, b: c.b, num: int64(off), den: int64(c.seg)}
+					checkValue(r, "cli", fmt.Sprintf("%s: iterations started at tick %d (+%s)", input, k, off), rv, per[k])
+				case off == c.seg:
+					// the tick at the very end of the profile: the end rate or nothing
+				case per[k] != 0:
+					r.Fail("C10/cli-after-end", "nonzero-after-the-profile", fmt.Sprintf("%d iterations started at tick %d (+%s); the profile ended at +%s", per[k], k, off, c.seg), input)
+				}
+				r.Step()
+			}
+			if time.Duration(last)*tick > end {
+				r.Fail("C10/cli-after-end", "iterations-after-the-window", fmt.Sprintf("an iteration started at tick %d (+%s); triggering ends at +%s", last, time.Duration(last)*tick, end), input)
+			}
+			r.Distinct(strings.Join(c.args, " "))
+		}
+	}}
+}
+
 func suites(tier string) []hlib.Suite {
 	if tier == "quick" {
-		return []hlib.Suite{stagedSuite(2, 2, false), stagedSuite(2, 2, true), stagedSuite(3, 1, false), rampSuite(2), largeSuite(), calculatorSuite()}
+		return []hlib.Suite{stagedSuite(2, 2, false), stagedSuite(2, 2, true), stagedSuite(3, 1, false), rampSuite(2), largeSuite(), calculatorSuite(), cliSuite()}
 	}
-	return []hlib.Suite{stagedSuite(3, 2, false), stagedSuite(3, 2, true), stagedSuite(2, 3, false), stagedSuite(2, 3, true), stagedSuite(4, 1, false), stagedSuite(3, 3, true), rampSuite(3), largeSuite(), calculatorSuite()}
+	return []hlib.Suite{stagedSuite(3, 2, false), stagedSuite(3, 2, true), stagedSuite(2, 3, false), stagedSuite(2, 3, true), stagedSuite(4, 1, false), stagedSuite(3, 3, true), rampSuite(3), largeSuite(), calculatorSuite(), cliSuite()}
 }
 
 func main() { hlib.EnumMain("C10", suites) }
